@@ -664,3 +664,48 @@ pub mod pager {
         }
     }
 }
+
+/// I/O tap: every mutation of a database or log file (create, write, truncate, sync) is
+/// reported to a sink the harness installs, so that the on-disk image at any crash point
+/// (any prefix of the event sequence) can be rebuilt.
+pub mod iotap {
+    use std::path::{Path, PathBuf};
+    use std::sync::Mutex;
+
+    #[derive(Debug, Clone)]
+    pub enum Kind {
+        /// (offset, bytes)
+        Write(u64, Vec<u8>),
+        SetLen(u64),
+        Sync,
+    }
+
+    #[derive(Debug, Clone)]
+    pub struct Event {
+        pub path: PathBuf,
+        pub kind: Kind,
+    }
+
+    static SINK: Mutex<Option<Vec<Event>>> = Mutex::new(None);
+
+    /// Start recording (drops anything recorded before).
+    pub fn start() {
+        *SINK.lock().unwrap_or_else(|e| e.into_inner()) = Some(Vec::new());
+    }
+
+    /// Stop recording and return the events.
+    pub fn stop() -> Vec<Event> {
+        SINK.lock().unwrap_or_else(|e| e.into_inner()).take().unwrap_or_default()
+    }
+
+    /// Number of events recorded so far.
+    pub fn len() -> usize {
+        SINK.lock().unwrap_or_else(|e| e.into_inner()).as_ref().map(|v| v.len()).unwrap_or(0)
+    }
+
+    pub(crate) fn record(path: &Path, kind: Kind) {
+        if let Some(v) = SINK.lock().unwrap_or_else(|e| e.into_inner()).as_mut() {
+            v.push(Event { path: path.to_path_buf(), kind });
+        }
+    }
+}
